@@ -21,7 +21,8 @@ RULE = ("refresh_rate family (direct oracle, not a Coq model): the literal is de
         "floor(2^63/mult)-1/0/+1, 2^63-1/0/+1, 2^64-1/0/+1, 10^19, 20 nines, 25 digits, leading zeros}; every "
         "white-space placement (none, space, tab, several, NBSP, U+2003/U+3000, LF, U+0085, trailing variants) x every "
         "unit; integer scalars at every threshold +-1 and their negatives, out-of-range integers, alternative YAML "
-        "integer spellings (+n, 0x, 0o), float literals, junk suffixes / prefixes (unknown units, fractions, signs, "
+        "integer spellings (+n, 0x, 0o), float literals, $ENV{..} / ${..} / %..% references to variables that are set in the "
+        "process (nothing is expanded inside a literal), numbers zero-padded to 19..77 digits, junk suffixes / prefixes (unknown units, fractions, signs, "
         "leading white space, non-ASCII look-alikes such as KELVIN SIGN and LONG S, non-ASCII digits); each through "
         "serde_yaml and serde_json, string scalars quoted and (where the text is a safe plain scalar) unquoted; then "
         "random compositions number+ws+unit-ish+ws. The casing x number product is taken in full (quick: one front-end per "
@@ -289,6 +290,19 @@ def cases(rng, tier):
             out += str_cases(kind, "5" + u + "5" + u, fmts=(rng.below(2),))
             out += str_cases(kind, u, fmts=(rng.below(2),), plain=False)                     # no number
         out += str_cases(kind, "", plain=False)
+        # references to variables that ARE set in the harness process (C20_UNIT=kb, C20_NUM=10, C20_EMPTY=,
+        # C20_SECS=seconds): a literal is a literal, not a path - nothing is expanded inside it
+        for lit_ in ("10 $ENV{C20_UNIT}", "10$ENV{C20_UNIT}", "$ENV{C20_NUM} kb", "$ENV{C20_NUM}", "10 kb$ENV{C20_EMPTY}",
+                     "10$ENV{C20_EMPTY}", "$ENV{C20_EMPTY}10 kb", "5 $ENV{C20_SECS}", "5 second$ENV{C20_EMPTY}s",
+                     "$ENV{C20_NUM} $ENV{C20_SECS}", "1$ENV{C20_NUM}", "10 ${C20_UNIT}", "10 $C20_UNIT", "10 %C20_UNIT%"):
+            out += str_cases(kind, lit_, fmts=(0, 1))
+        # small numbers zero-padded far beyond the 20 digits of u64::MAX / 19 of i64::MAX: still the same number
+        for nd in (19, 20, 21, 22, 25, 40, 77):
+            for v in ("1", "7", "1024"):
+                pad = "0" * (nd - len(v)) + v
+                out += str_cases(kind, pad + " " + good[1 if kind == 0 else 0], fmts=(rng.below(2),))
+                out += str_cases(kind, pad + good[0], fmts=(rng.below(2),))
+                out += str_cases(kind, pad, fmts=(rng.below(2),), plain=False)
     # 5. random compositions
     n_rand = 3000 if not thorough else 60000
     alphabet = "bkmgtiBKMGTIsecondhurayw SECONDHURAYW\t.-+0123456789 Kſx"
